@@ -133,7 +133,7 @@ HEADER = "From Coq Require Import List ZArith.\nFrom IocVerif Require Import Mod
 
 def evaluate(ctx, binp, cases, tag):
     """run implementation + Coq; returns (by_id, mismatches, violations, nontrivial_count, nevals)"""
-    rc, res, raw = vlib.run_json(binp, {"cases": cases}, timeout=900)
+    rc, res, raw, _loud = vlib.run_json_verbose_share(ctx, binp, {"cases": cases}, timeout=900)
     if res is None:
         raise vlib.GoBuildError("./cmd/c12 (run)", raw[-3000:])
     terms = []
